@@ -3,6 +3,7 @@ from typing import Any, Dict, Optional
 from conductor.config import COND_INCLUDE_EXTENSION
 from conductor.task_types import raw_task_types
 from conductor.errors import (
+    ConductorAbort,
     ConductorError,
     DuplicateTaskName,
     MissingCondFile,
@@ -162,6 +163,10 @@ class TaskLoader:
                 )
             )
             raise syntax_err from ex
+        except ConductorAbort:
+            # The user interrupted Conductor while the included file was
+            # being evaluated. This is not an error in the file.
+            raise
         except Exception as ex:
             run_err = TaskParseError(error_details=str(ex))
             run_err.add_file_context(
